@@ -37,3 +37,20 @@ package ioutils
 //@ mode effects
 //@ effect[C05:skip-is-relative-to-the-current-position] every io.Seeker($s).Seek($off, $wh) where $off == n && $wh == io.SeekCurrent
 //@ effect[C05:unseekable-readers-are-read-past] every CopyN(_, $rd, $k) where $k == n && $rd == r
+
+// C16 / C05. The lazy reader is transparent: every Seek is carried out on the opened reader, with the caller's offset
+// and whence, when it is issued (a seek that is remembered and replayed later loses every seek but the last), and its
+// answer is the opened reader's; Read reads from the opened reader into the caller's buffer.
+//@ func (*lazyReadSeekCloser).Seek
+//@ property C16 C05
+//@ mode effects
+//@ effect[C16:lazy-seek-is-the-readers-seek] every returns() if err == nil
+//@     needs before io.ReadSeekCloser($rs).Seek($o, $w) -> ($pos, $e)
+//@     where $o == offset && $w == whence && $e == nil && result == $pos
+//@ effect[C16:lazy-seek-forwards-the-arguments] every io.ReadSeekCloser($rs).Seek($o, $w) where $o == offset && $w == whence
+
+//@ func (*lazyReadSeekCloser).Read
+//@ property C16 C05
+//@ mode effects
+//@ effect[C16:lazy-read-is-the-readers-read] every io.ReadSeekCloser($rs).Read($q) where same($q, p)
+//@ effect[C16:lazy-read-never-seeks] never io.ReadSeekCloser($rs).Seek(_, _)
